@@ -157,7 +157,7 @@ package crlrepository
 
 //@ func Repository.loadActively
 //@   writes crlrepository.Entry.Loaded, crlrepository.Entry.Chains
-//@   props C10 C13 C15 C16
+//@   props C08 C10 C11 C13 C15 C16
 //@   ensures[C15] locations_recorded_before_the_first_load: called(Repository.loadCRL#any) ==> called(CRLStore.UpdateCRLLocations#1) && res(CRLStore.UpdateCRLLocations#1) == nil
 //@   requires repoOK(R) && entryShell(entry) && unheld(entry.entryLock) && chains != nil && chainsOK(chains) && crlLocations != nil
 //@   assigns L.held, crlrepository.Entry.CRLStore, crlrepository.Entry.Loaded, crlrepository.Entry.LastUpdateSignatureVerifyFailed, crlrepository.Entry.LastUpdateSignature, crlrepository.Entry.Chains, M.map[string][]uint8, X.ldbhas, X.fs, X.net, X.retry, X.stream, X.spos, X.hacc, X.hkind, E.uint8, E.any, fresh:E.*core.CertificateChainEntry, H.crlloader.MultiSchemesCRLLoader, H.crlloader.URLLoader, H.crlloader.FileLoader
@@ -172,6 +172,8 @@ package crlrepository
 //@   assigns L.held, crlrepository.Entry.CRLStore, crlrepository.Entry.Loaded, crlrepository.Entry.LastUpdateSignatureVerifyFailed, crlrepository.Entry.LastUpdateSignature, crlrepository.Entry.Chains, H.crlrepository.Repository.crlRepository, M.map[string]*crlrepository.Entry, crlstore.MapStore.Map, M.map[string][]uint8, crlstore.LevelDbStore.Db, H.crlloader.MultiSchemesCRLLoader, H.crlloader.URLLoader, H.crlloader.FileLoader, X.ldbhas, X.fs, X.net, X.retry, X.stream, X.spos, X.hacc, X.hkind, E.uint8, E.any, E.string, fresh:E.*core.CertificateChainEntry, fresh:E.core.CertificateChain, fresh:E.core.CertificateChainEntry
 //@   ensures[C16] refresh_follows_policy: called(CRLReader.ReadCRL#1) && res(CRLReader.ReadCRL#1, 1) == nil && sigMode(R) != config.SignatureValidationModeVerify && called(verifyCRLSignature#1) && res(verifyCRLSignature#1, 1) != nil ==> err == nil
 //@   ensures[C04,C08,C16] no_swap_without_verification: called(Repository.updateEntry#any) ==> called(verifyCRLSignature#1) && res(verifyCRLSignature#1, 1) == nil
+//@   ensures[C08,C15,C18] replacement_store_carries_the_signer: called(Repository.updateEntry#any) ==> called(CRLPersisterProcessor.UpdateSignatureCertificate#1) && res(CRLPersisterProcessor.UpdateSignatureCertificate#1) == nil && arg(CRLPersisterProcessor.UpdateSignatureCertificate#1, 1) == res(verifyCRLSignature#1, 0)
+//@   ensures[C04,C16] supplied_chains_are_the_ones_verified_against: newChains != nil && called(verifyCRLSignature#1) ==> arg(verifyCRLSignature#1, 1) == newChains
 //@   ensures[C08,C15] failed_refresh_keeps_entry: err != nil ==> !called(Repository.deleteEntrySync#1)
 //@   ensures chains_untouched: old(newChains != nil && chainsOK(newChains)) ==> chainsOK(newChains)
 
@@ -188,7 +190,8 @@ package crlrepository
 //@   loop 1 invariant repoOK(R) && norwlocks()
 
 //@ func Repository.UpdateCRL
-//@   props C15 C16 C13
+//@   props C04 C12 C15 C16 C13
+//@   ensures[C04,C12,C15,C16] a_known_location_is_refreshed_and_reverified: err == nil && called(Repository.getEntrySync#1) && res(Repository.getEntrySync#1) != nil ==> called(Repository.updateCrlEntry#1) && res(Repository.updateCrlEntry#1) == nil && arg(Repository.updateCrlEntry#1, 2) == chains
 //@   requires repoOK(R) && norwlocks() && crlLocations != nil
 //@   requires chains != nil ==> chainsOK(chains)
 //@   assigns L.held, crlrepository.Entry.CRLStore, crlrepository.Entry.Loaded, crlrepository.Entry.LastUpdateSignatureVerifyFailed, crlrepository.Entry.LastUpdateSignature, crlrepository.Entry.Chains, H.crlrepository.Repository.crlRepository, M.map[string]*crlrepository.Entry, crlstore.MapStore.Map, M.map[string][]uint8, crlstore.LevelDbStore.Db, H.crlloader.MultiSchemesCRLLoader, H.crlloader.URLLoader, H.crlloader.FileLoader, X.ldbhas, X.fs, X.net, X.retry, X.stream, X.spos, X.hacc, X.hkind, E.uint8, E.any, E.string, fresh:E.*core.CertificateChainEntry, fresh:E.core.CertificateChain, fresh:E.core.CertificateChainEntry
@@ -222,8 +225,8 @@ package crlrepository
 //@   ensures err == nil ==> ret != nil
 //@   ensures[C09] store_error_is_error: called(CRLStore.GetCertRevocationStatus#1) && res(CRLStore.GetCertRevocationStatus#1, 1) != nil ==> err != nil
 //@   ensures[C01] listed_means_revoked: called(CRLStore.GetCertRevocationStatus#1) && res(CRLStore.GetCertRevocationStatus#1, 1) == nil && res(CRLStore.GetCertRevocationStatus#1, 0).Revoked ==> err == nil && ret.Revoked
-//@   ensures[C04,C11,C16] revoked_only_while_in_force: err == nil && ret.Revoked ==> called(Repository.getEntrySync#1) && res(Repository.getEntrySync#1) != nil && res(Repository.getEntrySync#1).Loaded
-//@   ensures[C04,C11,C16] unloaded_entry_store_is_not_consulted: called(CRLStore.GetCertRevocationStatus#any) ==> res(Repository.getEntrySync#1) != nil && res(Repository.getEntrySync#1).Loaded
+//@   ensures[C04,C10,C11,C16] revoked_only_while_in_force: err == nil && ret.Revoked ==> called(Repository.getEntrySync#1) && res(Repository.getEntrySync#1) != nil && res(Repository.getEntrySync#1).Loaded
+//@   ensures[C04,C10,C11,C16] unloaded_entry_store_is_not_consulted: called(CRLStore.GetCertRevocationStatus#any) ==> res(Repository.getEntrySync#1) != nil && res(Repository.getEntrySync#1).Loaded
 //@   ensures[C11] revoked_only_from_loaded_store: err == nil && ret.Revoked ==> called(CRLStore.GetCertRevocationStatus#1) && res(CRLStore.GetCertRevocationStatus#1, 1) == nil && res(CRLStore.GetCertRevocationStatus#1, 0).Revoked
 //@   ensures[C01,C09] loaded_entry_is_consulted: called(Repository.getEntrySync#1) && res(Repository.getEntrySync#1) != nil && called(RWMutex.RLock#1) && res(Repository.getEntrySync#1).Loaded ==> called(CRLStore.GetCertRevocationStatus#1)
 
